@@ -29,12 +29,21 @@ def load_module_ast(repo, relpath):
 
 def find_def(tree, qualname):
     """Locate FunctionDef by dotted qualname (Class.method, outer.inner)."""
+    want_setter = qualname.endswith("@setter")
+    if want_setter:
+        qualname = qualname[: -len("@setter")]
     parts = qualname.split(".")
     scope = tree.body
     node = None
-    for p in parts:
+    for pi, p in enumerate(parts):
         found = None
         stack = list(scope)
+        if want_setter and pi == len(parts) - 1:
+            # the `@<name>.setter` definition of a property (same name as its getter)
+            for s in scope:
+                if isinstance(s, ast.FunctionDef) and s.name == p and any(ast.unparse(d) == p + ".setter" for d in s.decorator_list):
+                    return s
+            return None
         # search this scope's statements (including inside if/try/with blocks) but not nested defs
         while stack:
             s = stack.pop(0)
@@ -228,6 +237,29 @@ class FnVerifier:
         if isinstance(obj, (Closure, DottedName, BoundMethod)):
             return any(n in ("object",) for n in names)
         return False
+
+    def property_def(self, cls, attr, which):
+        """FunctionDef of a property getter / setter of `cls` declared in config['properties'] (inlined: real source)"""
+        props = self.c.config.get("properties", {})
+        if attr not in props.get(cls, ()):
+            return None
+        key = (cls, attr, which)
+        cache = self.__dict__.setdefault("_propdefs", {})
+        if key not in cache:
+            found = None
+            for n in ast.walk(self.tree):
+                if isinstance(n, ast.ClassDef) and n.name == cls:
+                    for f in n.body:
+                        if isinstance(f, ast.FunctionDef) and f.name == attr:
+                            decs = [ast.unparse(d) for d in f.decorator_list]
+                            if which == "getter" and "property" in decs:
+                                found = f
+                            if which == "setter" and ("%s.setter" % attr) in decs:
+                                found = f
+            if found is None:
+                raise EngineError("property %s.%s (%s) not found" % (cls, attr, which))
+            cache[key] = found
+        return cache[key]
 
     def is_callable_type(self, t):
         return (t.kind == "opaque" and t.name in self.c.config.get("callable_types", ("fn", "callable"))) or t is T.Const
@@ -611,7 +643,7 @@ class FnVerifier:
         raise Unsupported("call to undeclared name %r (line %s)" % (name, getattr(node, "lineno", "?")))
 
     def call_method(self, R, recv, mname, args, kwargs, node, frame):
-        cls = recv.t.cls
+        cls = recv.t.cls if recv.t.kind == "obj" else (recv.t.rec.name if recv.t.kind == "lref" else recv.t.name)
         for key in ("%s.%s" % (cls, mname), "self." + mname):
             ek = self.ext_key(key, args)
             if ek is not None:
